@@ -32,6 +32,10 @@ def any_message(op, P, A, ids, addr, fresh_id):
         return M.ro_delete()
     if op == 'roReadyToAir':
         return M.ready_to_air()
+    if op == 'roCreate':
+        # "any message of any type": another roCreate document (only ever added AFTER the roDelete here - before
+        # it, a roCreate has no merge of its own)
+        return B.running_order([B.story(fresh_id, slug='n', body=[T('p', 'x')])], msg_id='60')
     raise ValueError(op)
 
 
